@@ -1093,6 +1093,16 @@ func ruleDepthBalance(c *eng.Ctx) {
 		for i := start; i < len(b.Instrs); i++ {
 			in := b.Instrs[i]
 			sum += delta(in)
+			// a call of a local closure or same-package helper that adjusts the counter (leave := func() { …; depth-- })
+			if call, ok := in.(*ssa.Call); ok {
+				if mc, ok := call.Call.Value.(*ssa.MakeClosure); ok {
+					if f, ok := mc.Fn.(*ssa.Function); ok {
+						sum += closureDelta(f)
+					}
+				} else if f := call.Call.StaticCallee(); f != nil && f != fn && f.Pkg == fn.Pkg && f.Blocks != nil && len(f.Blocks) <= 3 {
+					sum += closureDelta(f)
+				}
+			}
 			if d, ok := in.(*ssa.Defer); ok {
 				if mc, ok := d.Call.Value.(*ssa.MakeClosure); ok {
 					if f, ok := mc.Fn.(*ssa.Function); ok {
@@ -1120,6 +1130,57 @@ func ruleDepthBalance(c *eng.Ctx) {
 	}
 	dfs(incBlk, incIdx, 0, 0, map[*ssa.BasicBlock]bool{incBlk: true})
 	c.Check(bad == "", R, "text.(*Extractor).invokeXObject#balance", fn.Pos(), "increment and decrement are balanced on every path", "the XObject nesting counter is not restored exactly once: "+bad+" (a net decrease lets nested forms recurse past the limit and overflow the stack)")
+}
+
+// formatTableKeys: v is a load of a package-level map variable that only the package initialiser assigns (a map
+// literal); returns the integer constants used as its keys.
+func formatTableKeys(v ssa.Value, fn *ssa.Function) (map[int64]bool, bool) {
+	ld, ok := v.(*ssa.UnOp)
+	if !ok || ld.Op != token.MUL {
+		return nil, false
+	}
+	g, ok := ld.X.(*ssa.Global)
+	if !ok || fn.Pkg == nil || g.Pkg != fn.Pkg {
+		return nil, false
+	}
+	init := fn.Pkg.Func("init")
+	if init == nil {
+		return nil, false
+	}
+	// no store to the variable outside the initialiser
+	for _, m := range fn.Pkg.Members {
+		f, ok := m.(*ssa.Function)
+		if !ok || f == init {
+			continue
+		}
+		written := false
+		eng.Instrs(f, true, func(in ssa.Instruction) {
+			if st, ok := in.(*ssa.Store); ok && st.Addr == ssa.Value(g) {
+				written = true
+			}
+		})
+		if written {
+			return nil, false
+		}
+	}
+	keys := map[int64]bool{}
+	var lit ssa.Value
+	eng.Instrs(init, false, func(in ssa.Instruction) {
+		if st, ok := in.(*ssa.Store); ok && st.Addr == ssa.Value(g) {
+			lit = st.Val
+		}
+	})
+	if lit == nil {
+		return nil, false
+	}
+	eng.Instrs(init, false, func(in ssa.Instruction) {
+		if mu, ok := in.(*ssa.MapUpdate); ok && mu.Map == lit {
+			if k, ok := eng.ConstInt(mu.Key); ok {
+				keys[k] = true
+			}
+		}
+	})
+	return keys, len(keys) > 0
 }
 
 // ---------------------------------------------------------------- R2.7
@@ -1200,6 +1261,20 @@ func ruleFormatState(c *eng.Ctx) {
 				return s
 			}
 			out := cp(s)
+			// `h, ok := table[e.format]` on a read-only package-level table keyed by format: ok means the format
+			// is one of the keys, !ok that it is none of them
+			if ex, isEx := f.Cond.(*ssa.Extract); isEx && ex.Index == 1 {
+				if lk, isLk := ex.Tuple.(*ssa.Lookup); isLk && lk.CommaOk && isFormatLoad(lk.Index) {
+					if keys, ok := formatTableKeys(lk.X, fn); ok {
+						for v := range out {
+							if keys[v] != f.Pos {
+								delete(out, v)
+							}
+						}
+						return out
+					}
+				}
+			}
 			if op, x, y, ok := f.Cmp(); ok && (op == token.EQL || op == token.NEQ) {
 				var k int64
 				isFmt := false
